@@ -54,3 +54,14 @@ def where(ex: BaseException) -> str:
             last = f"{mod}.{tb.tb_frame.f_code.co_name}"
         tb = tb.tb_next
     return f"{type(ex).__name__}@{last or 'outside-han'}"
+
+
+def where_entry(ex: BaseException) -> str:
+    """'<module>.<function>' of the outermost han frame below the autodecoder (the decoder entry point)."""
+    tb = ex.__traceback__
+    while tb is not None:
+        fn = tb.tb_frame.f_code.co_filename
+        if "/han/" in fn and not fn.endswith("autodecoder.py"):
+            return f"{fn.rsplit('/', 1)[-1][:-3]}.{tb.tb_frame.f_code.co_name}"
+        tb = tb.tb_next
+    return "outside-han"
